@@ -483,4 +483,8 @@ def run(ctx: Ctx, repo: Repo, tier: str) -> None:
     ctx.attempt(infer_no_memory, ctx, repo, "R-C02.8")
     from .memo_rules import tracer_attribution_history
     ctx.attempt(tracer_attribution_history, ctx, repo, "R-C02.4")
+    # the last link of "logged exactly once" in the shipped configuration: the store logger keeps every trace it is handed
+    # (R-C17.2, whatever was observed for the call; only __main__ is dropped, which is C17's business)
+    from . import c17 as _c17
+    ctx.attempt(_c17.rule_main_gate, ctx, repo)
     ctx.settle()
